@@ -7,7 +7,7 @@
        the sequential meaning of the chain ([eval_chain], Model/ChainSpec.v) — which never builds a graph.
        Props/C01.v (chain_lowering_correct) proves (1) = (2) for well-formed chains; evaluating both ties the
        specification itself, not only the lowered graph, to the implementation. *)
-From Eino Require Import Base.Util Model.Graph Model.Chain Model.ChainSpec Model.GraphCmp.
+From Eino Require Import Base.Util Model.Graph Model.Chain Model.ChainSpec Model.ChainCompile Model.GraphCmp.
 
 (* cc_entry: the public entry point the root was called through: 0 = Invoke, 1 = Stream (output chunks
    concatenated), 2 = Transform (input cut into one chunk per top-level key, output concatenated).
@@ -44,7 +44,20 @@ Definition dup_class (e : err) : bool := N.eqb (e_class e) eDupKey || N.eqb (e_c
 Definition stream_incomparable (c : gcase) : bool :=
   match model_run c with Fail es _ => existsb dup_class es | Done _ _ => false end.
 
-Definition bad (c : ccase) : bool :=
+(* (3) Chain.Compile accepts the forest iff every chain of it satisfies [chain_compiles] (Model/ChainCompile.v;
+   Props/C01.v chain_compiles_wf: an accepted chain satisfies the hypothesis of chain_lowering_correct).
+   1/10 of the cases with a chain break one construction rule on purpose. *)
+Definition compile_agrees (c : gcase) : bool :=
+  match o_class (gc_obs c) with
+  | OCompile => negb (forest_compiles (gc_forest c))
+  | _ => forest_compiles (gc_forest c)
+  end.
+
+Definition run_bad (c : ccase) : bool :=
   if (negb (N.eqb (cc_entry c) 0) && stream_incomparable (cc_case c))%bool then false
   else gcase_bad (cc_case c) || negb (chain_spec_ok (cc_case c)).
+
+Definition bad (c : ccase) : bool :=
+  negb (compile_agrees (cc_case c))
+  || (if forest_compiles (gc_forest (cc_case c)) then run_bad c else false).
 Definition mismatches (cs : list ccase) : list nat := mismatches_from bad 0 cs.
